@@ -100,8 +100,8 @@ type Sched struct {
 	kill    chan struct{}
 	dead    bool
 	Gated   bool
-	// Park decides whether a label parks (nil => every label parks in gated mode).
-	Park    func(label string) bool
+	// Park decides whether a gate parks (nil => every gate parks in gated mode).
+	Park    func(proc, label string, a, b uint64) bool
 	byGid   map[int64]*Proc
 	byName  map[string]*Proc
 	Rec     *Recorder
@@ -269,7 +269,7 @@ func (s *Sched) Gate(label string, a, b uint64) {
 		runtime.Goexit()
 	}
 	p := s.identify(gid, label)
-	if !s.Gated || (s.Park != nil && !s.Park(label)) {
+	if !s.Gated || (s.Park != nil && !s.Park(p.Name, label, a, b)) {
 		s.mu.Unlock()
 		return
 	}
